@@ -1602,7 +1602,13 @@ E('C19', 'fraction-test-two-ifs', TU, """        if (decimal_comma := ',' in val
 
 # ---- C11 R11.1 (guard held during the dispatch) / R11.7 (refusal never swallowed); seeds C11-1, C11-2
 V('C11', 'early-init-guard-not-restored', BLK, """                with self._enable_event:    # type: ignore[attr-defined]
-                    self.circuit.init_sblock(self, full=True)
+                    try:
+                        self.circuit.init_sblock(self, full=True)
+                    except Exception as err:
+                        # a failed initialization is fatal even if the sender of this event
+                        # catches the exception
+                        self.circuit.abort(err)
+                        raise
 """, """                self._event_active = False
                 self.circuit.init_sblock(self, full=True)
 """, 'R11.1')
@@ -1980,7 +1986,13 @@ V('C11', 'noevent-after-init', BLK, """                if cond_etype is None:
                     break
 """, 'R11.8', note="'no event' falls through to the initialisation and the dispatcher")
 V('C11', 'early-init-outside-window', BLK, """                with self._enable_event:    # type: ignore[attr-defined]
-                    self.circuit.init_sblock(self, full=True)
+                    try:
+                        self.circuit.init_sblock(self, full=True)
+                    except Exception as err:
+                        # a failed initialization is fatal even if the sender of this event
+                        # catches the exception
+                        self.circuit.abort(err)
+                        raise
 """, """                self.circuit.init_sblock(self, full=True)
 """, 'R11.8')
 V('C11', 'early-init-only-step0', BLK, "            if 0 <= self.init_steps_completed < 2:\n",
@@ -2089,3 +2101,30 @@ V('C08', 'not-finalized-fast-path', SIM, """        if self._error:
             # there is an even bigger problem
             raise EdzedInvalidState("The circuit was shut down")
         if self._finalized:""", 'R08.12', note="seed C08-10")
+
+# ----------------------------------------------------------------------------- defect F20 (C09)
+V('C09', 'f20-reverted', BLK, """                with self._enable_event:    # type: ignore[attr-defined]
+                    try:
+                        self.circuit.init_sblock(self, full=True)
+                    except Exception as err:
+                        # a failed initialization is fatal even if the sender of this event
+                        # catches the exception
+                        self.circuit.abort(err)
+                        raise
+""", """                with self._enable_event:    # type: ignore[attr-defined]
+                    self.circuit.init_sblock(self, full=True)
+""", 'R09.3', note="pre-fix tree: a failed early initialisation is only passed to the sender of the event")
+V('C09', 'early-init-error-swallowed', BLK, """                        self.circuit.abort(err)
+                        raise
+""", """                        self.circuit.abort(err)
+                        return None
+""", 'R09.3')
+E('C09', 'early-init-abort-in-helper-order', BLK, """                    except Exception as err:
+                        # a failed initialization is fatal even if the sender of this event
+                        # catches the exception
+                        self.circuit.abort(err)
+                        raise
+""", """                    except Exception as init_err:
+                        self.circuit.abort(init_err)
+                        raise
+""")
